@@ -657,10 +657,12 @@ The clean-up cursor `status.canaryStatus.finalisingStep` is shared by four task 
 (`doProgressingReset`: gateway → BatchRelease → canary Service) and the clean-ups for success / rollback / the other exit reasons
 (`doCanaryFinalising`).  When one of these activities is abandoned or overtaken before it finished — the user pushes `v3` during
 the release of `v2` and then returns to `v2`, or rolls back — the next activity resumes from the cursor
-the previous one left and skips every task before it.  The deletion / disabling variants (the reconcile that notices a deletion still
-runs the `Progressing` branch once more; the exit clean-up then resumed from the cursor that branch left) are REPAIRED by the cursor
-reset in `Reconcile` (fix "cursor reset", `RV.RolloutSM.resetOnExit`; regression example `loop_overtaken_cleanup_cursor_reset`).
-What stays open is the variant in which the rollout never leaves Progressing (`abandonedHist`); both histories are replayed on the
+the previous one left and skips every task before it.  Of the deletion / disabling variants (the reconcile that notices a deletion still
+runs the `Progressing` branch once more; the exit clean-up then resumed from the cursor that branch left) the cursor-carrying half is
+REPAIRED by the cursor reset in `Reconcile` (fix "cursor reset", `RV.RolloutSM.resetOnExit`; regression example
+`loop_overtaken_cleanup_cursor_reset`); that the Progressing branch still runs in that reconcile — a reset may delete the BatchRelease
+the exit clean-up would have resumed — is not.
+What also stays open is the variant in which the rollout never leaves Progressing (`abandonedHist`); both histories are replayed on the
 real controllers on every run (corpus `closedloop/finding-abandonedCleanup.jsonl`, `closedloop/fixed-abandonedCleanup-delete.jsonl`);
 candidate repair of the remainder: `fixes/cltraffic-stale-cursor.patch`. -/
 
